@@ -231,14 +231,14 @@ def plan_copy_to(w: World, op: dict) -> Plan:
                     trigger=trigger + "/untyped-into-typed", slots=(si, ti))
     if smt.typed and not tmt.typed:
         return Plan(EXCLUDED, why="typed source into untyped tree")
-    if eff_deep and si == ti and (tm is sm or tm.is_descendant_of(sm)):
-        return Plan(EXCLUDED, why="deep copy of a branch into itself")
-    if si == ti and tm is sm:
-        # copies of the children below their own parent: always a collision
-        pass
+    # deep copy of children into (a descendant of) one of them: a snapshot copy or a
+    # refusal are both acceptable, a corrupted tree is not
+    into_itself = eff_deep and si == ti and any(
+        tm is c or tm.is_descendant_of(c) for c in sm.children)
     sib = tmt.child_dids(tm)
     if any(c.did in sib for c in sm.children):
-        return Plan(REFUSE, why="duplicate-sibling", refuse=UNIQUE, call=call, owner="C07",
+        return Plan(REFUSE, why="duplicate-sibling", refuse=ANY if into_itself else UNIQUE,
+                    call=call, owner="C07",
                     trigger=trigger + "/collision/duplicate-sibling", slots=(si, ti))
     if tmt.typed and any(c.kind != DEFAULT_KIND for c in sm.children):
         trigger += "/typed-nokind"
@@ -247,7 +247,13 @@ def plan_copy_to(w: World, op: dict) -> Plan:
     def apply():
         from .ops import copy_subtree
 
-        for c in list(sm.children):
-            tm.insert(copy_subtree(c, uidgen, deep=eff_deep), None)
+        copies = [copy_subtree(c, uidgen, deep=eff_deep) for c in list(sm.children)]
+        for c in copies:
+            tm.insert(c, None)
 
-    return Plan(OK, call=call, apply=apply, owner="C07", trigger=trigger, slots=(si, ti))
+    from .ops import REFUSE_OR_OK
+
+    if into_itself:
+        trigger += "/into-itself"
+    return Plan(REFUSE_OR_OK if into_itself else OK, call=call, apply=apply, owner="C07",
+                trigger=trigger, slots=(si, ti))
